@@ -827,7 +827,7 @@ theorem placeArg_eq (v : View) (st : St) (hst : st.ok) (hn : v.natural) (hns : a
     ccArgs (lowerParamV v) st = placeArg v st := by
   have hs := classifyV_sound v hn false
   have hal : v.align ≤ 8 := by have := natural_align v hn; omega
-  unfold lowerParamV
+  unfold lowerParamV lowerParamC
   cases hk : classifyV v false with
   | void =>
     rw [hk] at hs
@@ -952,7 +952,7 @@ theorem implRet_eq (r : Option View) (hn : ∀ v ∈ r, v.natural) : implRet r =
       | memory => simp
       | regs cs => simp [hfit cs hc]
     rw [hspec]
-    unfold implRet lowerRetV
+    unfold implRet implRetC lowerRetC
     cases hk : classifyV v true with
     | void =>
       rw [hk] at hs
